@@ -135,6 +135,38 @@ def run_c14(res, tier, seed):
             k = next((j for j in range(min(len(got), len(exp))) if got[j] != exp[j]), None)
             res.add_violation("C14/to_range", f"a range the server sends is {got[k] if k is not None and k < len(got) else '?'} where the client's positions are {exp[k] if k is not None else '?'}",
                               {"doc_hex": hexs(d), "doc": d})
+    # the line table the server KEEPS after an incremental edit must be the one of the new text: ASCII edits in
+    # front of / behind / between multi-byte characters, same length and length-changing, with and without line breaks
+    ereqs, enew = [], []
+    erng = random.Random(seed * 977 + 14)
+    edocs = [d for d in ds if 2 <= len(d) <= 30 and wf_crlf(d)]
+    erng.shuffle(edocs)
+    for d in edocs[: (400 if tier == "quick" else 6000)]:
+        pos = client_positions(d)
+        for _ in range(3):
+            i = erng.randrange(len(pos)); j = erng.randrange(i, min(len(pos), i + 4))
+            ins = erng.choice(["", "x", "xy", "label", "\n", "x\ny", "ß", "💣z", " "])
+            new = client_apply(d, pos[i][2], pos[j][2], ins)
+            if not wf_crlf(new):
+                continue
+            ereqs.append(f"editlc\t{hexs(d)}\t{pos[i][0]}\t{pos[i][1]}\t{pos[j][0]}\t{pos[j][1]}\t{hexs(ins)}")
+            enew.append(new)
+    eio, emo = common.run_both_chunked(ereqs)
+    res.cov["evaluations"] += len(ereqs)
+    for rq, new, a, b in zip(ereqs, enew, eio, emo):
+        if a != b:
+            res.disagreements.append((rq, a[:300], b[:300]))
+        s2 = strip_cr(new)
+        bs = boundaries(s2)
+        want = {off: f"{l}:{c}" for off, l, c in bs}
+        parts = a.split(" ")
+        if parts[0] != "ok" or parts[1] != hexs(s2):
+            continue        # the text itself is C13's subject
+        lcs = parts[2:]
+        badoff = next((off for off in want if off < len(lcs) and lcs[off] != want[off]), None)
+        if badoff is not None:
+            res.add_violation("C14/line-table-after-edit", f"after an incremental edit the server reports {lcs[badoff]} for offset {badoff}, the client computes {want[badoff]}",
+                              {"request": rq, "new_text": new})
     io, mo = common.run_both_chunked(reqs)
     res.cov["evaluations"] += len(reqs)
     distinct = set()
